@@ -1,4 +1,5 @@
 // ----- the opaque implementor (E2): required trait items with their ABSTRACT contracts.
+// (every tag is non-empty: the extracted literals are compared with the IETF strings in unit IMPL)
 // These are not assumptions about blsful: the units G1IMPL and G2IMPL prove that both concrete
 // implementors satisfy them.
 #[verifier::external_body]
@@ -18,10 +19,10 @@ pub uninterp spec fn DST_AUG() -> Seq<u8>;
 pub uninterp spec fn DST_POP_SIG() -> Seq<u8>;
 pub uninterp spec fn DST_POP_PROOF() -> Seq<u8>;
 #[verifier::external_body]
-pub fn BlsSignatureBasic__DST() -> (d: &'static [u8]) ensures d@ == DST_BASIC() { unimplemented!() }
+pub fn BlsSignatureBasic__DST() -> (d: &'static [u8]) ensures d@ == DST_BASIC(), d@.len() > 0 { unimplemented!() }
 #[verifier::external_body]
-pub fn BlsSignatureMessageAugmentation__DST() -> (d: &'static [u8]) ensures d@ == DST_AUG() { unimplemented!() }
+pub fn BlsSignatureMessageAugmentation__DST() -> (d: &'static [u8]) ensures d@ == DST_AUG(), d@.len() > 0 { unimplemented!() }
 #[verifier::external_body]
-pub fn BlsSignaturePop__SIG_DST() -> (d: &'static [u8]) ensures d@ == DST_POP_SIG() { unimplemented!() }
+pub fn BlsSignaturePop__SIG_DST() -> (d: &'static [u8]) ensures d@ == DST_POP_SIG(), d@.len() > 0 { unimplemented!() }
 #[verifier::external_body]
-pub fn BlsSignaturePop__POP_DST() -> (d: &'static [u8]) ensures d@ == DST_POP_PROOF() { unimplemented!() }
+pub fn BlsSignaturePop__POP_DST() -> (d: &'static [u8]) ensures d@ == DST_POP_PROOF(), d@.len() > 0 { unimplemented!() }
